@@ -27,9 +27,9 @@ META = {
 def case(draw):
     two_d = draw(st.integers(0, 2)) == 0
     if two_d:
-        s = draw(GS.spec2d_case(max_nf=20, max_nd=36, max_cells=6000, relabel=True, history=True))
+        s = draw(GS.spec2d_case(max_nf=20, max_nd=36, max_cells=6000, relabel=True, history=True, dtypes=True))
     else:
-        s = draw(GS.spec1d_case(history=True))
+        s = draw(GS.spec1d_case(history=True, dtypes=True))
     b = draw(GS.band(s["f"]))
     return {"spec": s, **b, "power": draw(st.integers(0, 4)),
             "c": draw(st.sampled_from([0.25, 2.0, 3.7, 1000.0, 1e-3])),
@@ -103,7 +103,7 @@ def run(c):
 
     # scaling: built independently, and through multiply()
     cc = c["c"]
-    sc2 = dict(sc, history=None)
+    sc2 = dict(sc, history=None, dtype=None)
     sc2["e"] = (np.array(sc["e"], dtype=float) * cc).tolist()
     spec_c = GS.build(sc2)
     cmp("scale_moment", spec_c.frequency_moment(p, fmin, fmax), cc * ref_p, cc * abs_p, rel=4e-12)
@@ -119,7 +119,7 @@ def run(c):
     e1 = np.array(sc["e"], dtype=float)
     e2 = rng.uniform(0, 1, e1.shape) * (np.nanmax(e1) if np.isfinite(np.nanmax(e1)) and e1.size else 1.0)
     e2[np.isnan(e1)] = np.nan
-    sc3 = dict(sc, history=None)
+    sc3 = dict(sc, history=None, dtype=None)
     sc3["e"] = e2.tolist()
     spec2 = GS.build(sc3)
     a3 = GS.case_arrays(sc3)
@@ -127,7 +127,7 @@ def run(c):
     cmp("moment_of_sum", (spec + spec2).frequency_moment(p, fmin, fmax), ref_p + ref2, abs_p + abs2, rel=4e-12)
 
     # moments follow in-place modifications of the same object (query, modify in place, query again)
-    spec_m = GS.build(dict(sc, history=None))
+    spec_m = GS.build(dict(sc, history=None, dtype=None))
     first = np.asarray(spec_m.frequency_moment(p, fmin, fmax).values, dtype=float)
     _ = spec_m.hm0(fmin, fmax), spec_m.tm02(fmin, fmax)
     weights = 1.0 + np.arange(len(f)) / max(len(f), 1)
@@ -160,6 +160,8 @@ def run(c):
     classes = ["band_" + c["band"], "layout_" + sc["layout"], "spec_" + sc["kind"], "values_" + sc["values"]]
     if sc.get("history"):
         classes.append("object_modified_in_place_after_earlier_queries")
+    if sc.get("dtype"):
+        classes.append("density_stored_as_" + sc["dtype"])
     if nb >= 1 and (fmin in f.tolist() or fmax in f.tolist()):
         classes.append("band_edge_on_grid_point")
     if np.isnan(np.array(sc["e"], dtype=float)).any():
